@@ -56,19 +56,19 @@ pub open spec fn all_flat<K: FlatLit>(s: Seq<K>) -> bool { forall|i: int| 0 <= i
 fn sub_vec_union<K: SubtypeCheck + Clone + Ord + FlatLit>(v1: &[K], v2: &[K]) -> (r: Result<Vec<K>>)
     ensures all_flat(v1@) && all_flat(v2@) ==> r is Ok,
             r is Ok && all_flat(v1@) && all_flat(v2@) ==> all_flat(r->Ok_0@)
-                && forall|x: K| #[trigger] r->Ok_0@.contains(x) == (v1@.contains(x) || v2@.contains(x)),
+                && forall|x: K| #![trigger r->Ok_0@.contains(x)] #![trigger v1@.contains(x)] #![trigger v2@.contains(x)] r->Ok_0@.contains(x) == (v1@.contains(x) || v2@.contains(x)),
 { unimplemented!() }
 #[verifier::external_body]
 fn sub_vec_intersect<K: SubtypeCheck + Clone + PartialEq + Ord + FlatLit>(v1: &[K], v2: &[K]) -> (r: Result<Vec<K>>)
     ensures all_flat(v1@) && all_flat(v2@) ==> r is Ok,
             r is Ok && all_flat(v1@) && all_flat(v2@) ==> all_flat(r->Ok_0@)
-                && forall|x: K| #[trigger] r->Ok_0@.contains(x) == (v1@.contains(x) && v2@.contains(x)),
+                && forall|x: K| #![trigger r->Ok_0@.contains(x)] #![trigger v1@.contains(x)] #![trigger v2@.contains(x)] r->Ok_0@.contains(x) == (v1@.contains(x) && v2@.contains(x)),
 { unimplemented!() }
 #[verifier::external_body]
 fn sub_vec_diff<K: SubtypeCheck + Clone + Ord + FlatLit>(v1: &[K], v2: &[K]) -> (r: Result<Vec<K>>)
     ensures all_flat(v1@) && all_flat(v2@) ==> r is Ok,
             r is Ok && all_flat(v1@) && all_flat(v2@) ==> all_flat(r->Ok_0@)
-                && forall|x: K| #[trigger] r->Ok_0@.contains(x) == (v1@.contains(x) && !v2@.contains(x)),
+                && forall|x: K| #![trigger r->Ok_0@.contains(x)] #![trigger v1@.contains(x)] #![trigger v2@.contains(x)] r->Ok_0@.contains(x) == (v1@.contains(x) && !v2@.contains(x)),
 { unimplemented!() }
 
 // R5 (declaration-only): SubtypeCheck impls are used only inside sub_vec_* (external above).
@@ -192,4 +192,26 @@ pub open spec fn flat_sub(s: SubType) -> bool {
         SubType::Proper(p) => flat_p(*p),
         _ => true,
     }
+}
+
+// a recorded proper subtype of a literal kind lists at least one literal (else it would be False/True)
+pub open spec fn nontrivial_p(p: ProperSubtype) -> bool {
+    match p {
+        ProperSubtype::Number { allowed, values } => values@.len() > 0,
+        ProperSubtype::String { allowed, values } => values@.len() > 0,
+        ProperSubtype::VoidUndefined { allowed, values } => values@.len() > 0,
+        ProperSubtype::TypedArray { allowed, values } => values@.len() > 0,
+        _ => true,
+    }
+}
+pub open spec fn sub_nontrivial(s: SubType) -> bool {
+    match s {
+        SubType::Proper(p) => nontrivial_p(*p),
+        _ => true,
+    }
+}
+pub broadcast proof fn lemma_flat_first<K: FlatLit>(s: Seq<K>)
+    ensures #[trigger] all_flat(s) ==> (s.len() > 0 ==> s.contains(s[0]))
+{
+    if s.len() > 0 { assert(s[0] == s[0]); }
 }
